@@ -116,6 +116,11 @@ Definition dispatch (req : sx) : sx :=
     SL (map sx_answer
             (snd (di_run (simple_die stream) (gbool a1) stream (gI a3) (di_init (D := Z * Z * Z))
                          (map g_op (gL a4)))))
+  else if op =? "di_fresh" then   (* each query on a FRESH object *)
+    let stream := gB a2 in
+    SL (map (fun o => sx_answer (snd (di_step (simple_die stream) (gbool a1) stream (gI a3)
+                                              (di_init (D := Z * Z * Z)) o)))
+            (map g_op (gL a4)))
   else if op =? "di_spec" then
     let us := map g_unit (gL a2) in
     let stream := encode_units (gbool a1) us in
